@@ -135,7 +135,41 @@ def build_native_replayer(sc: Scratch, log_path: Path) -> Path | None:
         shutil.rmtree(d)
     d.mkdir(parents=True)
     src = VERIF / "replays" / "session_native"
-    (d / "Cargo.toml").write_text((src / "Cargo.toml.in").read_text().replace("@REPO@", str(sc.repo)))
+    # A second copy of the REAL in-memory store whose only difference is where it reads the time:
+    # `Timestamp::now()` -> `crate::verif_clock::now()` (a settable instant). Everything else - std
+    # HashMap, tokio Mutex, async code - is the real crate. It lets C13 counterexamples that need the
+    # clock to stand exactly on a deadline be replayed (the real clock cannot be stopped).
+    clocked = sc.root / "memstore_clocked"
+    if clocked.exists():
+        shutil.rmtree(clocked)
+    shutil.copytree(sc.repo / "runtime" / "sessions" / "pavex_session_memory_store", clocked, ignore=shutil.ignore_patterns("target"))
+    ct = (clocked / "Cargo.toml").read_text()
+    ct = ct.replace('name = "pavex_session_memory_store"', 'name = "pavex_session_memory_store_clocked"')
+    ct = ct.replace("version.workspace = true", 'version = "0.0.0"').replace("edition.workspace = true", 'edition = "2024"')
+    ct = re.sub(r"^(description|keywords|repository|license)(\.workspace)? = .*\n", "", ct, flags=re.M)
+    ct = ct.replace("pavex_session = { workspace = true }", f'pavex_session = {{ path = "{sc.repo}/runtime/sessions/pavex_session" }}')
+    ct = ct.replace("pavex = { workspace = true }", f'pavex = {{ path = "{sc.repo}/runtime/pavex" }}')
+    ct = ct.replace("serde_json = { workspace = true }", 'serde_json = "1"').replace("async-trait = { workspace = true }", 'async-trait = "0.1"')
+    ct = ct.replace('tokio = { workspace = true, features = ["sync"] }', 'tokio = { version = "1", features = ["sync"] }').replace("tracing = { workspace = true }", 'tracing = "0.1"')
+    ct = re.sub(r'px_workspace_hack = \{[^}]*\}', f'px_workspace_hack = {{ path = "{sc.repo}/px_workspace_hack" }}', ct)
+    (clocked / "Cargo.toml").write_text(ct)
+    lib = clocked / "src" / "lib.rs"
+    txt, n = rewrite_tokens(lib.read_text(), [(r"\bTimestamp::now\(\)", "crate::verif_clock::now()")])
+    lib.write_text(txt + """
+/// Verification-only: the instant `now()` returns is set by the replayer.
+pub mod verif_clock {
+    use pavex::time::Timestamp;
+    use std::sync::atomic::{AtomicI64, Ordering};
+    static NOW: AtomicI64 = AtomicI64::new(0);
+    pub fn set(secs: i64) {
+        NOW.store(secs, Ordering::SeqCst);
+    }
+    pub fn now() -> Timestamp {
+        Timestamp::from_second(NOW.load(Ordering::SeqCst)).expect("valid instant")
+    }
+}
+""")
+    (d / "Cargo.toml").write_text((src / "Cargo.toml.in").read_text().replace("@REPO@", str(sc.repo)).replace("@CLOCKED@", str(clocked)))
     shutil.copy(src / "Cargo.lock", d / "Cargo.lock")
     shutil.copytree(src / "src", d / "src")
     tgt = CACHE / "target-native"
